@@ -47,7 +47,8 @@ Print Assumptions C06_restarted_since_arm.
    db/wal_reset_watch.go on this run are the hand model's arm / disarmed / check (salts as numbers,
    Salt.Equal as equality; rep = the Go-side struct of a model watch). *)
 From Coq Require Import ZArith.
-From RQ Require Import Gen.WalResetWatch Proofs.C06_Gen.
+From RQ Require Import Gen.WalResetWatch.
+From RQ Require Import Proofs.C06_Gen.
 Theorem C06_source_derived_eq :
   (forall w s r, WALResetWatch_Arm N (rep w) s (Z.of_nat r) = rep (arm s r)) /\
   (forall w, WALResetWatch_Disarm N 0%N (rep w) = rep disarmed) /\
